@@ -17,7 +17,8 @@ RULE = ('CompactSize: exhaustive 0..2^17 (+/-2 around every size boundary, power
         'non-push opcodes and data items serialised by the reference, parsed through every parse entry point. '
         'Non-trivial = value on/next to a size boundary (CompactSize 252..254, 65534..65537, 2^32-2..2^32+1; '
         'script number with magnitude 2^(8k-1)-1..2^(8k-1)+1 or negative; push length 75/76/255/256/520/521/65535) '
-        'or a script with >=1 data item and >=2 items; distinct by (sub-check, value or script bytes).')
+        'or a script with >=1 data item and >=2 items; distinct by (sub-check, value or script bytes).'
+        ' [entry points parse(stream) and parse_bytesio at a stream offset; as_bytes() before serialize(); scripts starting with the shortcut bytes 30 / 02 / 03 / 04]')
 ASSUMPTIONS = ['ref/wire.py transcribes CompactSize / CScriptNum / push rules correctly (self-tested against '
                'published vectors in ref/selftest.py)',
                'data items above 520 bytes are generated only up to 65535 bytes (PUSHDATA2); OP_PUSHDATA4 pushes '
